@@ -45,7 +45,7 @@ def run(ck):
       m = r["mismatches"][0]
       ck.violation(f"{sig}|{m['clause']}",
                    f"{j['opt']} case {j['case']}: step {m['step']} block {m['block']}: {m['clause']} "
-                   f"(rel. diff {m['detail']})", {"job": j, "mismatches": r["mismatches"][:8]})
+                   f"(rel. diff {m['detail']})", {"worker": "harness.workers.blocks_indep", "job": j, "mismatches": r["mismatches"][:8]})
     else:
       ck.traces_ok(1)
   ck.assume("blocked and separate-leaf runs are different XLA programs (different padding sizes): 1e-4 "
